@@ -260,6 +260,11 @@ impl<S: Read + Write> Client<S> {
     /// ```
     pub fn write<T: 'static>(&mut self, channel_name: &String, message: T) -> RdpResult<()>
     where T: Message {
+        // The PER length of the user data is written on two bytes at most,
+        // which announce up to 16383 bytes (beyond, X.691 asks for fragments)
+        if message.length() > 0x3fff {
+            return Err(Error::RdpError(RdpError::new(RdpErrorKind::InvalidSize, "MCS: user data too large for a send data request")))
+        }
         self.x224.write(trame![
             mcs_pdu_header(Some(DomainMCSPDU::SendDataRequest), None),
             U16::BE(self.user_id.unwrap() - 1001),
